@@ -745,10 +745,24 @@ func (w *c10World) apply(r *Rec, op string) string {
 				r.Find(Finding{Sig: "C10:right-difficulty-rejected", What: "a header with exactly the difficulty of the rule is rejected as having a wrong difficulty: " + msg, Ops: w.histCopy(), Obs: msg, Req: "difficulty rule satisfied"})
 			}
 			if !right && !saysDiff {
-				r.Find(Finding{Sig: "C10:wrong-difficulty-not-detected", What: "a header with a wrong difficulty passes the difficulty rule (rejected later: " + msg + ")", Ops: w.histCopy(), Obs: msg, Req: "rejected by the difficulty rule"})
+				r.Find(Finding{Sig: "C10:wrong-difficulty-passed-difficulty-stage", What: "a header with a wrong difficulty passes the difficulty rule (rejected later: " + msg + ")", Ops: w.histCopy(), Obs: msg, Req: "rejected by the difficulty rule"})
 			}
 			if right {
 				r.Count("difficulty.right-value")
+				uncles := !bytes.Equal(parent.UncleHash, ethtypes.EmptyUncleHash[:])
+				clamped := h.Time >= parent.Time+909 || (!uncles && h.Time >= parent.Time+900)
+				floor := h.Difficulty.Cmp(big.NewInt(131072)) <= 0
+				switch {
+				case uncles && clamped && !floor:
+					r.Count("difficulty.uncles.clamped") // the uncle term must sit INSIDE the max(…, −99)
+				case uncles && !floor:
+					r.Count("difficulty.uncles.unclamped")
+				case clamped && !floor:
+					r.Count("difficulty.no-uncles.clamped")
+				}
+				if parent.Number >= 9899999 {
+					r.Count("difficulty.with-bomb")
+				}
 			} else {
 				r.Count("difficulty.wrong-value")
 			}
@@ -1341,6 +1355,59 @@ func (g *c10Gen) zeroFeeHistory() []string {
 	return ops
 }
 
+// the whole difficulty rule on a non-Rinkeby client, judged by the rejection REASON (fresh seals cannot be mined): one creation
+// header = parent (uncles or not, difficulty around the 131072 floor or far above, block number around the bomb-delay
+// boundaries), children at Δt ∈ {0 … 10^6}, each with the right difficulty, right±1 and right±parent/2048
+var c10DiffDts = []uint64{0, 1, 8, 9, 10, 17, 18, 899, 900, 908, 909, 910, 1000, 1000000}
+
+func c10DiffConfigs() (out [][3]uint64) { // {uncles, parent difficulty index, number}
+	for u := uint64(0); u < 2; u++ {
+		for d := uint64(0); d < 8; d++ {
+			for _, n := range []uint64{1, 9699998, 9699999, 9700000, 9799999, 9899998, 9899999, 9900000, 9999999, 13286181} {
+				out = append(out, [3]uint64{u, d, n})
+			}
+		}
+	}
+	return
+}
+
+func (g *c10Gen) difficultyGridHistory(cfg [3]uint64) []string {
+	diffs := []*big.Int{big.NewInt(131072), big.NewInt(131073), big.NewInt(133120), big.NewInt(137800), big.NewInt(140000), big.NewInt(1 << 20),
+		new(big.Int).Exp(big.NewInt(10), big.NewInt(16), nil), c10Pow2(70, 5)}
+	t0 := uint64(1700000000)
+	gen := g.genesisWith(cfg[2], t0, 30000000, 15000000, big.NewInt(1000000000))
+	gen.Difficulty = diffs[cfg[1]]
+	if cfg[0] == 1 {
+		gen.UncleHash = g.rnd32() // the parent has uncles
+	}
+	gen.seal()
+	now := t0 + 1000100
+	ops := []string{g.reset(5, 1<<40, gen)}
+	step := new(big.Int).Div(gen.Difficulty, big.NewInt(2048))
+	for _, dt := range c10DiffDts {
+		c := g.childGas(gen, 1, 30000000, 15000000)
+		c.Time = gen.Time + dt
+		want := ethash.CalcDifficulty(c10AllForks, c.Time, gen.eth())
+		for _, d := range []*big.Int{big.NewInt(0), big.NewInt(1), big.NewInt(-1), step, new(big.Int).Neg(step)} {
+			x := *c
+			x.Difficulty = new(big.Int).Add(want, d)
+			if x.Difficulty.Sign() <= 0 {
+				continue
+			}
+			x.BaseFee = new(big.Int).Set(c.BaseFee)
+			if !(dt == 909 && cfg[2] == 1) {
+				// 33 bytes of extra data: rejected right AFTER the difficulty stage and before the (seconds-long) ethash
+				// verification, so the reason still tells whether the difficulty stage was passed
+				x.Extra = bytes.Repeat([]byte{7}, 33)
+			}
+			x.seal()
+			ops = append(ops, c10Op("probe", now, &x))
+		}
+	}
+	g.r.Count("history.difficulty-grid")
+	return ops
+}
+
 // creation headers: rule-abiding edge cases and the ones ClientState.Validate must refuse
 func (g *c10Gen) creationHistory() []string {
 	t0 := uint64(1700000000)
@@ -1759,6 +1826,23 @@ func TestC10(t *testing.T) {
 		r.Count("history.zerofee")
 	}
 	run(g.creationHistory())
+	{
+		cfgs := c10DiffConfigs()
+		if thorough { // every parent class, spread over the shards
+			for i, c := range cfgs {
+				if i%16 == r.Shard%16 {
+					run(g.difficultyGridHistory(c))
+				}
+			}
+		} else { // the classes that matter most + a few random ones
+			for _, c := range [][3]uint64{{1, 4, 13286181}, {1, 6, 9899999}, {0, 6, 13286181}, {1, 0, 1}, {1, 7, 9700000}, {0, 3, 9899998}} {
+				run(g.difficultyGridHistory(c))
+			}
+			for i := 0; i < 4; i++ {
+				run(g.difficultyGridHistory(cfgs[r.Rng.Intn(len(cfgs))]))
+			}
+		}
+	}
 	for i := 0; i < nB; i++ {
 		for k := 0; k < 9; k++ {
 			run(g.boundaryHistory(k))
